@@ -26,6 +26,14 @@
 (* cancel every active operation, closed = true, unlock / conn.Close() /   *)
 (* CloseFunc.                                                              *)
 (*                                                                         *)
+(* Round 3: close is single steps for EVERY closer (CloseTry = the test of  *)
+(* `closed` - with CloseCheckOutside, the seeded design C11b-1, outside mu  *)
+(* followed by CloseLock - , CloseFrame, CloseCancel, CloseCS, CloseConn,   *)
+(* CloseFn); with Stalls the environment can stall the socket once, so      *)
+(* that a writer sits in Send holding mu while closers queue up behind it;  *)
+(* with Linger a Source that saw ctx.Done returns when the environment lets *)
+(* it; StopDeletes is the seeded design C11b-2 (stop deletes active[id]).   *)
+(*                                                                         *)
 (* Environment: the client (CSend, up to MaxMsgs messages from Alphabet),  *)
 (* the Sources' decisions (emit <= K values, end, subscription error,      *)
 (* panic), ticks (<= MaxTicks), InitTimeout, the ping read deadline, the   *)
